@@ -5,7 +5,7 @@ import z3
 from smir.values import *   # noqa
 from checks.hubmodel import *     # noqa
 
-CRATES = ['basset_sei_hub']
+CRATES = ['basset_sei_hub', 'basset_sei_rewards_dispatcher']
 BOUNDS = {'quick': {'validators': 1, 'delegations': 1}, 'thorough': {'validators': 2, 'delegations': 2}}
 ASSUMPTIONS = ['E1, E3, E4 (DESIGN.md section 4)',
                'token supply after the transaction = supply before + Mint - Burn of the emitted messages '
@@ -120,8 +120,25 @@ def _withdraw_frame(ctx):
 OBLIGATIONS.append(('frame_withdraw_unbonded', _withdraw_frame))
 
 
+def _rebond_message(ctx):
+    """'re-bonding staking rewards raises the stSei rate and mints no stSei' across the two contracts: the message with which the
+    dispatcher re-bonds the stSei share is BondRewards (the only hub entry point that books coins without minting), addressed to
+    the hub, carrying the whole remainder; any other contract call is a violation (world, claims and replay of C17's
+    dispatch_rewards obligation)"""
+    from checks.c17 import ob_dispatch
+    from checks.generic import ClaimFilter
+    return ob_dispatch(ClaimFilter(ctx, lambda k: k in ('dispatch:call', 'dispatch:rebond_target', 'dispatch:rebond')))
+
+
+OBLIGATIONS.append(('rebond_message_is_bond_rewards', _rebond_message))
+
+
 def replay_any(v, run_scenario):
     key0 = v.get('key') or ':'
+    if key0.startswith('dispatch:'):
+        from smir.replay import generic_replay
+        import checks.c17 as c17_
+        return generic_replay(c17_)(v, run_scenario)
     if key0.startswith('release:'):
         from smir.replay import generic_replay
         import checks.c01 as c1_
